@@ -83,6 +83,14 @@ func (vc *VC) Generate() (err error) {
 			v := vc.trBool(c.Expr, env, c)
 			vc.assert(v)
 		}
+		if vc.fc.TrustedFrame {
+			vc.usedContracts["frame of "+shortName(vc.Name)+" (modifies "+strings.Join(vc.fc.Modifies, ", ")+") is assumed, not checked; its other clauses are verified"] = true
+		}
+		for _, c := range vc.fc.Entry {
+			v := vc.trBool(c.Expr, env, c)
+			vc.assert(v)
+			vc.usedContracts["entry assumption of "+shortName(vc.Name)+" (not imposed on callers): "+c.Text] = true
+		}
 	}
 	vc.axioms()
 	if hk, _, ok := vc.ghostKey("held"); ok {
@@ -117,6 +125,21 @@ func (vc *VC) Generate() (err error) {
 			ns := ns
 			// helpers verified inline are part of the function: a forbidden operation moved into one is found
 			vc.walkInstrs(fn, "", 0, nil, func(x ssa.Instruction, path string) {
+				if st, isStore := x.(*ssa.Store); isStore {
+					// "nosite store:T.f": the function never writes that field
+					if n := storeSiteName(st); n != "" && n == ns.Site {
+						b := x.Block()
+						vc.cur = nil
+						o := vc.oblige("nosite", ns.Site, "false", mergeTags(ns.Tags, vc.tagsOfFunc()), x.Pos(), ns)
+						o.Reach = "true"
+						if b.Parent() == fn {
+							if r := vc.reach[b]; r != "" {
+								o.Reach = r
+							}
+						}
+					}
+					return
+				}
 				ci, ok := x.(ssa.CallInstruction)
 				if !ok {
 					return
